@@ -95,6 +95,7 @@ class Textbook:
         self.literals = []
         self.used = set()
         self.features = features          # None = all
+        self.kind_stack = []
 
     # -- literals ---------------------------------------------------------------------------
     def literal(self):
@@ -139,12 +140,21 @@ class Textbook:
 
     CONSTRUCTS = ["row", "frac", "sqrt", "root", "sup", "sub", "subsup", "bigop", "lim", "over", "under", "underover",
                   "multiscripts", "matrix", "cases", "table", "fenced_row", "mfenced", "func", "binom", "enclose", "text_row",
-                  "neg", "factorial", "implied_times", "abs", "mixed", "integral", "semantics", "mstyle", "mpadded", "prime", "frac_bevelled"]
+                  "neg", "factorial", "implied_times", "abs", "mixed", "integral", "semantics", "mstyle", "mpadded", "prime", "frac_bevelled", "seplist"]
 
     def construct(self, depth):
         r = self.rng
         pool = self.features or self.CONSTRUCTS
-        return getattr(self, "c_" + r.choice(pool))(depth)
+        # self-nesting: interactions between rules (repeated optional words, pauses, indicators) show when a construct contains its own kind
+        if self.kind_stack and r.random() < 0.18 and self.kind_stack[-1] in pool:
+            kind = self.kind_stack[-1]
+        else:
+            kind = r.choice(pool)
+        self.kind_stack.append(kind)
+        try:
+            return getattr(self, "c_" + kind)(depth)
+        finally:
+            self.kind_stack.pop()
 
     def c_row(self, d):
         return self.row(d)
@@ -248,6 +258,20 @@ class Textbook:
         r = self.rng
         o, c = r.choice(FENCES)
         return mrow(mo(o), self.row(d + 1), mo(c))
+
+    def c_seplist(self, d):
+        """fenced list of 2-5 items with one separator (points, intervals, sets, argument lists), sometimes named or related to something"""
+        r = self.rng
+        o, c = r.choice([("(", ")"), ("[", "]"), ("{", "}"), ("(", "]"), ("[", ")"), ("⟨", "⟩")])
+        sep = r.choice([",", ",", ";", ";", "|", ":"])
+        items = [self.operand(d + 1)]
+        for _ in range(r.randint(1, 4)):
+            items += [mo(sep), self.operand(d + 1)]
+        lst = mrow(mo(o), mrow(*items), mo(c))
+        k = r.random()
+        if k < 0.3:
+            return mrow(mi(r.choice("PQfgA")), mo(r.choice(["=", "∈", "⊂", "∪", "⁡"])), lst)
+        return lst
 
     def c_abs(self, d):
         return mrow(mo("|"), self.operand(d + 1), mo("|"))
